@@ -470,6 +470,8 @@ class MBXMLDocument:
 
                 if valid_candidate:
                     t: MBXMLToken = copy(tokendef_setting)
+                    # shallow copy shares the attribute list with the class-level token table
+                    t.attributes = list(tokendef_setting.attributes)
                     t.token_id = tokendef_id
                     t.value = value
 
